@@ -3,6 +3,7 @@
 From Coq Require Import List Arith Bool Reals Lra.
 Import ListNotations.
 From KV Require Import Model.Mat Model.Clip Model.Precond Proofs.MatP Proofs.ClipP.
+From KV Require Model.Sys Proofs.SysP.
 Local Open Scope R_scope.
 
 (* s = vg_sum = lr^2 * sum over layers of <V, D> *)
@@ -48,6 +49,31 @@ Proof.
   - apply nu_tight_l; [lra|]. rewrite Rabs_right by lra. lra.
 Qed.
 
+(* one scale on every rank: the clip factor is a function of the per-layer pairs (preconditioned gradient, original
+   gradient).  By the transparency theorem of C02 (Model/Sys.v) every rank ends the gradient phase with the SAME
+   preconditioned gradient for every layer, whatever the assignment, and the original gradients are the averaged ones:
+   so any function of those pairs - in particular nu - takes the same value on all ranks and equals the
+   single-process value *)
+Theorem same_scale_on_every_rank :
+  forall (D S : Type) (ema : D -> D -> D) (avg : list D -> D) (inv : D -> D) (pre : D -> D -> D -> D)
+         (scale : list (option D * D) -> S),
+  (forall P (Ms : list D), Ms <> [] -> avg (map (ema P) Ms) = ema P (avg Ms)) ->
+  forall W, (0 < W)%nat ->
+  forall layers : list (Sys.asg * (nat -> Sys.rstate D) * (nat -> D) * (nat -> D) * D * D * D),
+  (forall a st mA mG g FA FG, In (a, st, mA, mG, g, FA, FG) layers ->
+     Sys.wf_asg W a /\ (forall r, (r < W)%nat -> Sys.fA D (st r) = FA) /\ (forall r, (r < W)%nat -> Sys.fG D (st r) = FG)) ->
+  forall r r', (r < W)%nat -> (r' < W)%nat ->
+  let view q := map (fun x => match x with (a, st, mA, mG, g, FA, FG) =>
+                    (Sys.final_grad D pre W a (Sys.iter_state D ema avg inv W a st mA mG) g q, g) end) layers in
+  scale (view r) = scale (view r').
+Proof.
+  intros D S ema avg inv pre scale Hrm W HW layers Hl r r' Hr Hr' view.
+  f_equal. unfold view. apply map_ext_in. intros [[[[[[a st] mA] mG] g] FA] FG] Hin.
+  destruct (Hl a st mA mG g FA FG Hin) as (Hwf & HA & HG).
+  destruct (SysP.iteration_transparent_l D ema avg inv pre Hrm W a st mA mG g FA FG HW Hwf HA HG) as [_ H1]. cbv zeta in H1.
+  now rewrite (H1 r Hr), (H1 r' Hr').
+Qed.
+
 Print Assumptions vg_sum_is_scaled_inner.
 Print Assumptions nu_formula.
 Print Assumptions nu_range.
@@ -57,3 +83,4 @@ Print Assumptions nu_tight.
 Print Assumptions inner_split.
 Print Assumptions only_rescales.
 Print Assumptions clip_none_identity.
+Print Assumptions same_scale_on_every_rank.
